@@ -11,6 +11,75 @@ def gen_case(rng, profile='default'):
     return specmod.gen_spec(rng, profile)
 
 
+def gen_crashpoint(rng):
+    """A small base model run fault-free once; then one fault pattern is placed exactly at (and just before / after the
+    priority of) one of the events that the fault-free run dispatched: faults land inside hand-overs, right at the
+    end of a cycle, right at a restore..."""
+    base = specmod.gen_spec(rng, 'cp')
+    base['ops'] = []
+    procs = [d['n'] for d in base['devices'] if d['k'] == 'proc']
+    if not procs:
+        return base
+    f = Floor(base, [], 'C00')
+    import signal
+
+    def on_alarm(signum, frame):
+        raise core.RunTimeout()
+    old = signal.signal(signal.SIGALRM, on_alarm)
+    signal.setitimer(signal.ITIMER_REAL, 5.0)
+    try:
+        f.run()
+        events = [(t, float(pr)) for (t, who, act, pr) in f.trace_digest if who not in (-1, -2)]
+    except (Exception, core.RunTimeout):
+        events = []       # the dry run only chooses where to put the fault; the real run is judged by the monitors
+    finally:
+        signal.setitimer(signal.ITIMER_REAL, 0)
+        signal.signal(signal.SIGALRM, old)
+        core.end_run()
+    if not events:
+        return base
+    t, pr = rng.choice(events)
+    side = rng.choice((0.25, -0.25, 0.25, -0.25, 0))
+    pr = max(1.25, pr + side)
+    dev = rng.choice(procs)
+    d1 = rng.choice((0, 0.25, 0.5, 1))
+    d2 = rng.choice((0, 0.25, 0.5, 1, 2))
+    pat = rng.choice(('fail', 'fail_restore', 'shut_restore', 'shut_fail_restore', 'fail_fail_restore', 'wo', 'shut_shut',
+                      'restore_only', 'fail_restore_same_instant'))
+    ops = []
+
+    def op(k, dt, **kw):
+        o = {'t': t + dt, 'pr': pr if dt == 0 else rng.choice((2, 5, 9, 11)), 'op': k, 'dev': dev}
+        o.update(kw)
+        ops.append(o)
+    if pat == 'fail':
+        op('fail', 0, d=0)
+    elif pat == 'fail_restore':
+        op('fail', 0, d=0); op('restore', d2)
+    elif pat == 'shut_restore':
+        op('shutdown', 0); op('restore', d2)
+    elif pat == 'shut_fail_restore':
+        op('shutdown', 0); op('fail', d1, d=0); op('restore', d1 + d2)
+    elif pat == 'fail_fail_restore':
+        op('fail', 0, d=0); op('fail', d1, d=0); op('restore', d1 + d2)
+    elif pat == 'wo':
+        op('wo', 0, tag=rng.choice(('a', 'b')))
+        if rng.random() < 0.5:
+            op('fail', d1, d=0); op('restore', d1 + d2 + 3)
+    elif pat == 'shut_shut':
+        op('shutdown', 0); op('shutdown', d1); op('restore', d1 + d2); op('restore', d1 + d2)
+    elif pat == 'restore_only':
+        op('restore', 0)
+    elif pat == 'fail_restore_same_instant':
+        op('fail', 0, d=0)
+        ops.append({'t': t, 'pr': max(1.25, pr - 0.5), 'op': 'restore', 'dev': dev})
+    ops.sort(key=lambda o: (o['t'], -o['pr']))
+    base['ops'] = ops
+    base['crashpoint'] = {'at': [t, pr], 'pattern': pat}
+    base['tiebreak'] = core.gen_tiebreak(rng)
+    return base
+
+
 def monitors_for(own):
     from . import monitors as M
     return [cls() for cls in M.BY_PROP.get(own, [])]
